@@ -180,6 +180,8 @@ def tyOfName (s : String) : Option Nat :=
   match s.toList with
   | ['S', c] => if '0' ≤ c ∧ c ≤ '2' then some (c.toNat - 48) else none
   | ['N', '0'] => some 3
+  | ['A', 'N'] => some 4
+  | ['A', 'S'] => some 5
   | ['M', e, d] => if '0' ≤ e ∧ e ≤ '5' ∧ ('0' = d ∨ '1' = d) then some (10 + 2 * (e.toNat - 48) + (d.toNat - 48)) else none
   | ['D', e] => if '0' ≤ e ∧ e ≤ '5' then some (30 + (e.toNat - 48)) else none
   | ['R', e] => if '0' ≤ e ∧ e ≤ '5' then some (40 + (e.toNat - 48)) else none
@@ -240,6 +242,9 @@ def scriptTypeProg (id : String) : Prog :=
 def types (ty : Nat) : TyInfo :=
   if ty < 3 then { hot := true, prog := scriptTypeProg }
   else if ty = 3 then { hot := false, prog := scriptTypeProg }
+  -- `Arc<T>`: `Compound for Arc<T>` delegates the load and inherits `HOT_RELOADED` (regenerated fact)
+  else if ty = 4 then { hot := if arcInheritsHotReloaded then false else true, prog := scriptTypeProg }
+  else if ty = 5 then { hot := true, prog := scriptTypeProg }
   else if 10 ≤ ty ∧ ty < 22 then { hot := true, prog := assetProg (extsOf ((ty - 10) / 2)) ((ty - 10) % 2 = 1) }
   else if 30 ≤ ty ∧ ty < 36 then { hot := true, prog := dirProg (extsOf (ty - 30)) }
   else if 40 ≤ ty ∧ ty < 46 then { hot := true, prog := recDirProg (30 + (ty - 40)) ty }
